@@ -544,14 +544,24 @@ class AutoImport:
         if commit:
             self.connection.commit()
 
+    def _is_project_module(self, resource: Resource) -> bool:
+        return (
+            not resource.is_folder()
+            and self.project.pycore.is_python_file(resource)
+            and not self.project.is_ignored(resource)
+        )
+
     def _changed(self, resource):
-        if not resource.is_folder():
+        if self._is_project_module(resource):
             self.update_resource(resource)
 
     def _moved(self, resource: Resource, newresource: Resource):
-        if not resource.is_folder():
-            modname = self._resource_to_module(resource).modname
-            self._del_if_exist(modname)
+        self._removed(resource)
+        if newresource.is_folder():
+            for file in self.project.get_python_files():
+                if newresource.contains(file):
+                    self.update_resource(file)
+        elif self._is_project_module(newresource):
             self.update_resource(newresource)
 
     def _del_if_exist(self, module_name, commit: bool = True):
@@ -605,7 +615,12 @@ class AutoImport:
         return existing
 
     def _removed(self, resource):
-        if not resource.is_folder():
+        if resource.is_folder():
+            # every module that was inside the folder
+            modname = self._resource_to_module(resource).modname
+            self._execute(models.Name.delete_by_module_name_prefix, (modname, modname))
+            self.connection.commit()
+        elif self._is_project_module(resource):
             modname = self._resource_to_module(resource).modname
             self._del_if_exist(modname)
 
